@@ -1,14 +1,16 @@
 (** C19 — Stored results come back exactly, and queries mean what they say.
     Statements only; proofs are in Proofs/Words.v, Query.v, QueryDb.v,
-    StoreFmt.v, ReaderKeys.v, ReaderWf.v, SqlLists.v, Sql.v, SqlDb.v.
+    StoreFmt.v, ReaderKeys.v, ReaderWf.v, SqlLists.v, Sql.v, SqlDb.v,
+    RecordRuns.v.
     The generated SQL is modelled relationally (Model/Sql.v: the sub-selects of
     part.sql, INNER JOIN ... USING, LEFT JOIN Records, GROUP BY/COUNT, ORDER BY,
     LIMIT, the INSERTs under the PRIMARY/FOREIGN KEYs, TEXT compared bytewise =
     BINARY collation) and proved to mean [Query.query_selects]; what remains
     trusted is that SQLite implements these relational operators. *)
 From Coq Require Import Permutation Sorted.
-From Perf Require Import Base.Bytes Model.Words Model.Query Model.StoreFmt Model.Sql Proofs.Words Proofs.Query
-     Proofs.StoreFmt Proofs.QueryDb Proofs.ReaderKeys Proofs.ReaderWf Proofs.SqlLists Proofs.Sql Proofs.SqlDb.
+From Perf Require Import Base.Bytes Model.Words Model.Query Model.StoreFmt Model.Sql Model.RecordRuns Proofs.Words
+     Proofs.Query Proofs.StoreFmt Proofs.QueryDb Proofs.ReaderKeys Proofs.ReaderWf Proofs.SqlLists Proofs.Sql
+     Proofs.SqlDb Proofs.RecordRuns.
 
 (** several terms on one key, merged left to right as parseQuery does, mean
     their conjunction — on every non-empty label value (None = io.EOF = never) *)
@@ -326,6 +328,98 @@ Theorem C19_sql_listing_counts_matching_records : forall d ms q ps limit,
        = take_limit limit (filter (fun ic => negb (snd ic =? 0)%N) (map (upload_count ts) (rev d))).
 Proof. exact sql_listing_counts_matching_records. Qed.
 Print Assumptions C19_sql_listing_counts_matching_records.
+
+(** ** which records an upload is stored as: the rule, and where the code leaves it *)
+
+(** the rule (Model/RecordRuns.v): [spec_runs] cuts the results of an upload
+    into runs — it loses and reorders nothing, every run is non-empty and all
+    its members carry the label map and name-label map of its first, and two
+    consecutive runs carry different ones (so no run can be extended) *)
+Theorem C19_spec_runs_partition : forall rs,
+  concat (spec_runs rs) = rs /\ Forall is_run (spec_runs rs) /\ maximal (spec_runs rs).
+Proof. intros rs. exact (conj (spec_runs_concat rs) (conj (spec_runs_are_runs rs) (spec_runs_maximal rs))). Qed.
+Print Assumptions C19_spec_runs_partition.
+
+(** ... and that determines it: any such partition is [spec_runs] *)
+Theorem C19_spec_runs_unique : forall gs,
+  Forall is_run gs -> maximal gs -> spec_runs (concat gs) = gs.
+Proof. exact runs_unique. Qed.
+Print Assumptions C19_spec_runs_unique.
+
+(** Labels.Equal as written in Go (a missing key reads as "") is equality of
+    the label maps on results without empty label values *)
+Theorem C19_go_same_labels_is_identical : forall a b,
+  plain a -> plain b -> same_labels a b = identical a b.
+Proof. exact same_labels_identical. Qed.
+Print Assumptions C19_go_same_labels_is_identical.
+
+(** insertLabel's counter in closed form: queuing k labels with [pend]
+    arguments pending forces a flush iff the last label finds >= 990 pending *)
+Theorem C19_flush_forced_closed_form : forall k pend,
+  fst (queue_labels k pend) = flush_forced k pend.
+Proof. exact queue_labels_forced. Qed.
+Print Assumptions C19_flush_forced_closed_form.
+
+(** the code (InsertRecord / insertLabel / flush as modelled) stores exactly
+    the rule's records — one per maximal run, indexed under the run's labels,
+    content = first result printed afresh + the lines of the others — WHENEVER
+    no forced flush falls on the first result of a run that has a follower
+    ([no_split]: the runs walked with the counter of pending arguments, from 0;
+    only the first result of a run queues labels) *)
+Theorem C19_records_follow_rule : forall rs,
+  Forall plain rs -> no_split (spec_runs rs) 0 = true -> model_records rs = spec_records rs.
+Proof. exact model_records_are_spec_records. Qed.
+Print Assumptions C19_records_follow_rule.
+
+(** the condition is EXACT: the code stores the rule's records iff no forced
+    flush falls on the first result of a run that has a follower; otherwise it
+    stores more records than the rule (never fewer) *)
+Theorem C19_records_follow_rule_iff : forall rs,
+  Forall plain rs -> (model_records rs = spec_records rs <-> no_split (spec_runs rs) 0 = true).
+Proof. exact model_records_spec_iff. Qed.
+Print Assumptions C19_records_follow_rule_iff.
+
+Theorem C19_records_never_fewer_than_rule : forall rs,
+  Forall plain rs -> length (spec_records rs) <= length (model_records rs).
+Proof. exact model_records_count. Qed.
+Print Assumptions C19_records_never_fewer_than_rule.
+
+(** ... through processUpload (all files of the upload, one counter) *)
+Theorem C19_upload_records_follow_rule : forall u recs,
+  process_upload u = inl recs ->
+  Forall plain (upload_results u 0 (u_files u)) ->
+  no_split (spec_runs (upload_results u 0 (u_files u))) 0 = true ->
+  recs = spec_upload_records u.
+Proof. exact process_upload_records_are_spec. Qed.
+Print Assumptions C19_upload_records_follow_rule.
+
+(** the condition is needed — recorded finding C19_record_split_at_flush: user
+    "user" uploads a.txt with 41 different benchmarks and then one benchmark
+    run twice; the flush forced at 990 pending arguments falls on the first of
+    the two, which are stored as two records: the listing reports 43 records
+    (rule: 42), and 2 for name:Run (rule: 1) *)
+Theorem C19_records_follow_rule_refuted :
+  let u := split_witness 41 in
+  let rs := upload_results u 0 (u_files u) in
+  Forall plain rs
+  /\ no_split (spec_runs rs) 0 = false
+  /\ length (spec_upload_records u) = 42%nat
+  /\ (exists recs, process_upload u = inl recs /\ length recs = 43%nat /\ recs <> spec_upload_records u)
+  /\ list_uploads (fst (apply_upload [] u)) [] 0 = inl [(u_id u, 43%N)]
+  /\ list_uploads (fst (apply_upload [] u)) (bs "name:Run") 0 = inl [(u_id u, 2%N)]
+  /\ length (filter (fun rc => beq (lget (bs "name") (rc_namelabels rc)) (bs "Run")) (spec_upload_records u)) = 1%nat.
+Proof. exact records_follow_rule_refuted. Qed.
+Print Assumptions C19_records_follow_rule_refuted.
+
+(** non-vacuity of [plain] / [no_split]: with 40 benchmarks in front the same
+    pair is one record, and the theorem above applies *)
+Example C19_example_records_follow_rule :
+  let u := split_witness 40 in
+  let rs := upload_results u 0 (u_files u) in
+  Forall plain rs /\ no_split (spec_runs rs) 0 = true
+  /\ process_upload u = inl (spec_upload_records u) /\ length (spec_upload_records u) = 41%nat
+  /\ list_uploads (fst (apply_upload [] u)) (bs "name:Run") 0 = inl [(u_id u, 1%N)].
+Proof. exact records_follow_rule_instance. Qed.
 
 (** non-vacuity of the hypotheses of the SQL theorems: two uploads through the
     insert model; invariant, constraints, increasing (Day, Seq); a query with an
